@@ -247,7 +247,8 @@ PLANS = {
     "C02": [("core", ["typed1", "unsafe1"]), ("rel", ["typed11", "unsafe1"]), ("drive:wide", ["typed1", "unsafe2"]),
             ("drive:rel2", ["typed11", "unsafe1"]), ("dump", ["typed1", "unsafe2"]), ("drive:reset", ["typed1", "unsafe2"])],
     "C03": [("core", ["typed1", "unsafe1", "typedfill"]), ("rel", ["typed1", "unsafe1", "typed11"]), ("cache", ["typed1"]),
-            ("drive:wide", ["typed1", "unsafe2"]), ("drive:rel2", ["typed11", "unsafe1"]), ("drive:lock", ["typed1", "typed11", "unsafe2"])],
+            ("drive:wide", ["typed1", "unsafe2"]), ("drive:rel2", ["typed11", "unsafe1"]), ("drive:lock", ["typed1", "typed11", "unsafe2"]),
+            ("cursor", [])],
     "C04": [("rel", ["typed1", "unsafe1", "typed11", "unsafe2"]), ("drive:rel2", ["typed11", "unsafe1"]),
             ("drive:wide", ["typed1", "unsafe2"])],
     "C05": [("cache", ["typed1", "typed11", "unsafe1"]), ("drive:wide", ["typed1", "unsafe2"]), ("drive:rel2", ["typed11", "unsafe1"])],
@@ -274,7 +275,8 @@ PLANS["C16"] = [("cache", ["typed1", "unsafe2"]), ("drive:reset", ["typed1", "un
 PLANS["C17"] = [("dump", ["typed1", "unsafe2", "typed53"]), ("drive:reset", ["typed1", "unsafe2", "typed11", "typed53"]), ("drive:reset2", ["typed11", "unsafe1"])]
 PLANS["C11"] = [("core", ["typed1", "unsafe1", "exch8", "mapt1"]), ("batch", ["typed1", "typed53"]),
                 ("drive:mem", ["typed1", "unsafe2", "exch8", "typed11", "mapt42"]), ("drive:big", ["typed1", "unsafe3", "typed53"]), ("drive:mem64", ["typed1", "unsafe3", "typed53"])]
-PLANS["C07"] = [("lock", ["typed1", "unsafe2", "typed11"]), ("drive:lock", ["typed1", "unsafe2", "typed11"]), ("drive:lock64", ["typed1", "unsafe1"])]
+PLANS["C07"] = [("lock", ["typed1", "unsafe2", "typed11"]), ("drive:lock", ["typed1", "unsafe2", "typed11"]), ("drive:lock64", ["typed1", "unsafe1"]),
+                ("cursor", [])]
 PROP_CFG["C07"] = (dict(probes=2, misuse=8), dict(probes=4, misuse=-1))
 PLANS["C10"] = [("core", ["typed1", "unsafe1", "exch8", "mapt1"]), ("rel", ["typed1", "unsafe1", "typed11", "mapt1"]),
                 ("drive:rel2", ["typed11", "unsafe1", "mapt42"]), ("drive:wide", ["typed1", "unsafe2", "exch8"])]
@@ -771,6 +773,10 @@ def finish(ctx, level_text):
             v["cls"] = ctx.pid + v["cls"][3:]
     own = [v for v in ctx.violations if v["cls"].startswith(ctx.pid + ".")]
     other = [v for v in ctx.violations if not v["cls"].startswith(ctx.pid + ".")]
+    drift = [v for v in other if v["cls"].startswith("MODEL.")]
+    if drift and not own:
+        raise Inconclusive("the real code accepts a call the stand-alone model rejects (%s, %s): the model does not describe "
+                           "this code" % (drift[0]["cls"], str(drift[0]["detail"])[:300]))
     known = load_known()
     reported, hits = [], {}
     for v in own:
@@ -857,6 +863,9 @@ def check_generic(ctx):
         if fam == "obsenum":
             run_obsenum(ctx, choose_cells(ctx, cells), 1)
             continue
+        if fam == "cursor":
+            cursor_stage(ctx, [("plain", ctx.binpath)])
+            continue
         if fam.startswith("drive:"):
             drive_family(ctx, fam[6:], cells, pc.get("probes", 0),
                          extra_cfg={k: v for k, v in pc.items() if k != "probes"})
@@ -882,7 +891,7 @@ def check_generic(ctx):
             continue
         ctx.stats["sequences"] += gen["nseq"]
         # quick tier: replay a seed-chosen sample of the transitions sized to the budget
-        nbfs = max(1, len([1 for f, _ in plan if not f.startswith("drive:") and f not in ("obsmodel", "obsenum", "statsmodel")]))
+        nbfs = max(1, len([1 for f, _ in plan if not f.startswith("drive:") and f not in ("obsmodel", "obsenum", "statsmodel", "cursor")]))
         budget = (400000 // nbfs) if quick else 10 ** 9   # events per family
         cs = choose_cells(ctx, cells)
         per_seq = FAMILIES[fam]["tiers"][ctx.tier]["MaxHist"] + 7
@@ -967,6 +976,79 @@ def exec_logs_and_monitor(ctx, jobs, label):
                 ctx.stats["samples"].append(dict(family=label, cell=cell, log_head=[json.loads(next(f)) for _ in range(3)]))
 
 
+CURSOR_MC = """T(rows, ok) == [rows |-> rows, ok |-> ok]
+A(m, rel, tabs) == [m |-> m, rel |-> rel, tabs |-> tabs]
+mc_Layouts == {
+  <<A(TRUE, FALSE, <<T(<<1, 2>>, TRUE)>>)>>,
+  <<A(TRUE, FALSE, <<T(<<>>, TRUE)>>), A(TRUE, TRUE, <<T(<<1>>, TRUE), T(<<>>, TRUE), T(<<2, 3>>, FALSE), T(<<4, 5>>, TRUE)>>),
+    A(FALSE, FALSE, <<T(<<6>>, TRUE)>>), A(TRUE, FALSE, <<T(<<7>>, TRUE)>>)>>,
+  <<>>,
+  <<A(TRUE, TRUE, <<T(<<>>, TRUE)>>)>>,
+  <<A(TRUE, TRUE, <<T(<<1, 2, 3>>, TRUE)>>), A(TRUE, TRUE, <<T(<<4>>, FALSE), T(<<5>>, TRUE)>>)>>,
+  <<A(FALSE, FALSE, <<T(<<1, 2, 3>>, TRUE)>>), A(TRUE, TRUE, <<T(<<>>, TRUE), T(<<4>>, TRUE)>>), A(TRUE, FALSE, <<T(<<>>, TRUE)>>)>>
+}"""
+
+
+def run_cursor_monitor(ctx, logpath, timeout=1800):
+    d = os.path.dirname(logpath)
+    for t in ("ArkCursor.tla", "ArkCurTrace.tla"):
+        atomic_install(os.path.join(SPEC, t), os.path.join(d, t))
+    cfgp = os.path.join(d, "curtrace.cfg")
+    atomic_install(None, cfgp, "SPECIFICATION TSpec\nINVARIANT Done\nCHECK_DEADLOCK FALSE\n")
+    env = dict(os.environ, TRACE_FILE=logpath, JAVA_TOOL_OPTIONS="-XX:ParallelGCThreads=1 -XX:CICompilerCount=2 -Xms1g -Xmx4g -Xss64m")
+    p, dt = run(["tlc", "-workers", "1", "-metadir", logpath + ".meta", "-config", cfgp, os.path.join(d, "ArkCurTrace.tla")], timeout, env=env, cwd=d)
+    shutil.rmtree(logpath + ".meta", ignore_errors=True)
+    m = re.search(r'^"VERDICT (.*)"$', p.stdout, re.M)
+    if not m or "Model checking completed. No error has been found" not in p.stdout:
+        raise Inconclusive("cursor monitor did not produce a verdict for %s:\n%s" % (logpath, p.stdout[-3000:]))
+    return json.loads(json.loads('"' + m.group(1) + '"'))
+
+
+def cursor_stage(ctx, bins, product=False):
+    """The query cursor protocol: ArkCursorMC is model-checked (every call sequence over the model layouts; BuildsAgree,
+    LockExact, YieldsExact, ClosedIsFinal, CursorInRange); every call sequence up to a length is run on the real
+    queries of every kind over layouts built in the real world (arkexec -cursor) and each recorded outcome is
+    compared with ArkCursor!Run by the monitor ArkCurTrace; for C20 the logs of the builds are compared as well."""
+    quick = ctx.tier == "quick"
+    gen, dist, bad = run_tlc_model(ctx, "ArkCursorMC", CURSOR_MC,
+                                   "SPECIFICATION Spec\nCONSTANTS\n  Layouts <- mc_Layouts\n  MaxCalls = %d\n"
+                                   "INVARIANTS BuildsAgree LockExact YieldsExact ClosedIsFinal CursorInRange\nCHECK_DEADLOCK FALSE\n" % (10 if quick else 14),
+                                   "cursor")
+    if bad:
+        ctx.stats["design_findings"].append(dict(family="cursor", invariant=bad))
+    d = os.path.join(ctx.work, "cursor")
+    os.makedirs(d, exist_ok=True)
+    n = (5 if product else 6) if quick else 7
+    logs = []
+    for name, b in bins:
+        lp = os.path.join(d, "cur-%s.ndjson" % name)
+        cfg = dict(path="typed", caps=[1 + (ctx.seed % 3)], seed=ctx.seed)
+        cmd = [b, "-cursor", str(n), "-out", lp, "-cfg", json.dumps(cfg)]
+        st = exec_proc(ctx, cmd, "cursor", cfg, "cursor", name)
+        if st is None:
+            continue
+        logs.append((name, lp, cmd, cfg))
+    with ThreadPoolExecutor(max_workers=MON_PAR) as ex:
+        verdicts = list(ex.map(lambda j: run_cursor_monitor(ctx, j[1]), logs))
+    for (name, lp, cmd, cfg), v in zip(logs, verdicts):
+        ctx.stats["traces"] += v["seqs"]
+        ctx.stats["events"] += v["lines"]
+        for vi in v["viol"][:200]:
+            ctx.violations.append(dict(cls=vi["cls"], detail=vi["d"], line=vi["l"], ops=None, cfg=cfg, family="cursor", cell=name, cmd=cmd))
+        ctx.stats["cells"].append(dict(family="cursor", cell=name, cfg=cfg, sequences=v["seqs"], events=v["lines"], max_calls=n))
+    if product and len(logs) > 1:
+        atomic_install(os.path.join(SPEC, "ArkProd.tla"), os.path.join(d, "ArkProd.tla"))
+        for name, lp, cmd, cfg in logs[1:]:
+            out = os.path.join(d, "prod-cur-%s.ndjson" % name)
+            nl, same = zip_logs([logs[0][1], lp], "C20", out)
+            v = run_prod_monitor(ctx, out)
+            ctx.stats["events"] += v["lines"]
+            if not same:
+                ctx.violations.append(dict(cls="C20.shape", detail="cursor logs differ in length", line=0, ops=None, cfg=cfg, family="cursor", cell=name, cmd=cmd))
+            for vi in v["viol"][:200]:
+                ctx.violations.append(dict(cls=vi["cls"], detail=vi["d"], line=vi["l"], ops=None, cfg=cfg, family="cursor", cell=name, cmd=cmd))
+
+
 def variants_for(ctx, pid):
     """Executor variants of the product checks (also used by --replay)."""
     if pid == "C12":
@@ -1023,6 +1105,10 @@ def do_replay(path, ctxseed=1):
                 cmd[0] = out
             elif name == "arkexec_tiny":
                 cmd[0] = build_executor(ctx, "verif,ark_tiny", "arkexec_tiny")
+            elif name == "arkexec_debug":
+                cmd[0] = build_executor(ctx, "verif,ark_debug", "arkexec_debug")
+            elif name == "arkexec_tinydebug":
+                cmd[0] = build_executor(ctx, "verif,ark_tiny,ark_debug", "arkexec_tinydebug")
             else:
                 cmd[0] = ctx.binpath
             lp = os.path.join(ctx.work, "replay.ndjson")
@@ -1032,7 +1118,21 @@ def do_replay(path, ctxseed=1):
                 ctx.violations.append(dict(cls=pid + ".crash", detail="crash", line=0, ops=None, cfg=r["cfg"], family="replay", cell="replay"))
             elif "WARNING: DATA RACE" in p.stdout and "mlange-42/ark/ecs." in p.stdout:
                 ctx.violations.append(dict(cls="C13.race", detail="race", line=0, ops=None, cfg=r["cfg"], family="replay", cell="replay"))
-            if os.path.exists(lp) and p.returncode == 0:
+            if os.path.exists(lp) and p.returncode == 0 and "-cursor" in cmd:
+                for vi in run_cursor_monitor(ctx, lp)["viol"]:
+                    ctx.violations.append(dict(cls=vi["cls"], detail=vi["d"], line=vi["l"], ops=None, cfg=r["cfg"], family="replay", cell="replay"))
+                if pid == "C20" and name != "arkexec":
+                    # the same call sequences in the plain build, compared by ArkProd
+                    lp0 = os.path.join(ctx.work, "replay-plain.ndjson")
+                    cmd0 = [ctx.binpath] + cmd[1:]
+                    cmd0[cmd0.index("-out") + 1] = lp0
+                    run(cmd0, 1200)
+                    atomic_install(os.path.join(SPEC, "ArkProd.tla"), os.path.join(ctx.work, "ArkProd.tla"))
+                    outp = os.path.join(ctx.work, "replay-prod.ndjson")
+                    zip_logs([lp0, lp], "C20", outp)
+                    for vi in run_prod_monitor(ctx, outp)["viol"][:50]:
+                        ctx.violations.append(dict(cls=vi["cls"], detail=vi["d"], line=vi["l"], ops=None, cfg=r["cfg"], family="replay", cell="replay"))
+            elif os.path.exists(lp) and p.returncode == 0:
                 for t in ("ArkTrace.tla", "ArkWorld.tla"):
                     shutil.copy(os.path.join(SPEC, t), ctx.work)
                 for vi in run_monitor(ctx, lp)["viol"]:
@@ -1232,6 +1332,7 @@ def check_c20(ctx):
                               dict(stats=True, misuse=8, qmis=True))
     sources += driven_sources(ctx, bins[0][1], ["wide", "lock"], 8 if quick else 200, "unsafe1", dict(misuse=8, qmis=True))
     product_check(ctx, "C20", variants, sources, "c20")
+    cursor_stage(ctx, bins, product=True)
     # registries up to 64 types (the tiny limit) behave the same in every build
     d = os.path.join(ctx.work, "prod-c20reg")
     os.makedirs(d, exist_ok=True)
@@ -1337,7 +1438,7 @@ def check_c13(ctx):
         env = dict(os.environ, GORACE="halt_on_error=0 exitcode=0")
         p, dt = run(cmd, 1200, env=env)
         if p.returncode != 0:
-            raise Inconclusive("concurrent run failed:\n" + p.stdout[-2000:])
+            raise Inconclusive("concurrent run failed (%s):\n%s\n...\n%s" % (" ".join(cmd), p.stdout[:3000], p.stdout[-1500:]))
         blocks = re.findall(r"WARNING: DATA RACE.*?={18}", p.stdout, re.S)
         for b in blocks:
             if "github.com/mlange-42/ark/ecs." in b:
